@@ -114,6 +114,44 @@ func (h *NFSProcedureHandler) handleSetattr(body io.Reader, reply *RPCReply, aut
 		}
 	}
 
+	// A symbolic link handle names the link itself: never follow it to the
+	// target. A link has no settable size, mode or times here; only ownership
+	// can be changed (Lchown).
+	node.mu.RLock()
+	isSymlink := node.attrs != nil && node.attrs.Mode&os.ModeSymlink != 0
+	node.mu.RUnlock()
+	if isSymlink {
+		if sattr.SetSize {
+			return nfsErrorWithWcc(reply, NFSERR_INVAL), nil
+		}
+		if (sattr.SetUID || sattr.SetGID) && authCtx.EffectiveUID == 0 {
+			node.mu.Lock()
+			if sattr.SetUID {
+				node.attrs.Uid = sattr.UID
+			}
+			if sattr.SetGID {
+				node.attrs.Gid = sattr.GID
+			}
+			uid, gid := node.attrs.Uid, node.attrs.Gid
+			node.mu.Unlock()
+			if err := h.server.handler.fs.Lchown(node.path, int(uid), int(gid)); err != nil {
+				return nfsErrorWithWcc(reply, mapError(err)), nil
+			}
+			h.server.handler.attrCache.Invalidate(node.path)
+		}
+		postAttrs, err := h.server.handler.GetAttr(node)
+		if err != nil {
+			return nfsErrorWithWcc(reply, mapError(err)), nil
+		}
+		var buf bytes.Buffer
+		xdrEncodeUint32(&buf, NFS_OK)
+		if err := encodeWccData(&buf, preAttrs, postAttrs); err != nil {
+			return nfsErrorWithWcc(reply, NFSERR_IO), nil
+		}
+		reply.Data = buf.Bytes()
+		return reply, nil
+	}
+
 	// Apply truncation before other attribute changes.
 	// This is critical for file overwrites: the NFS client sends
 	// SETATTR(size=0) before WRITE(offset=0, data) to clear old content.
